@@ -1,5 +1,5 @@
 """C17 — rendered error reports are terminal-safe, cropped and show the right line (DESIGN §4 C17)."""
-from ..mir import MissingAnchor, sym_contains
+from ..mir import MissingAnchor, sym_contains, norm
 from ..rules import render, aggregates, last_seg, bool_switches, must_pass, switch_edges, int_consts, compares
 
 EXPLANATION = ("CHOKE / TAINT / SIBLING rules over the resolved MIR: every formatter write of a rendered report goes through one "
@@ -151,6 +151,56 @@ def run(ctx):
         okcut = bool(cuts) and all(sym_contains(idx, lambda x: x[0] == "call" and x[1] == "de_snipped::col_to_byte_offset_in_line") for b, idx in cuts)
         ctx.check(okcut, "COLUMN", "C17:COLUMN:error-line-cut-in-bytes-from-columns", "the error line's right-hand cut converts the column to a byte offset (%d site(s))" % len(cuts),
                   "crop_source_window cuts the stored error line at a byte offset that was not obtained from the column by col_to_byte_offset_in_line: with multi-byte text left of the error the line is cut before the reported column and the snippet is dropped", config, ctx.where(cs, cuts[0][0] if cuts else None))
+        # ---- COLUMN (secondary window): a window that crops its lines for display (crop_window_text re-bases the error offset to
+        # the cropped text) measures the caret's indentation on the *cropped* text with the *re-based* offset — a width taken from
+        # the text before the crop puts the caret `column - 1` characters in although the line was cut on the left.
+        nw = 0
+        for wf in sorted(fx.fns.values(), key=lambda g: g.npath):
+            if not wf.npath.startswith("de_snipped::"):
+                continue
+            crops = [b for b, t in wf.calls() if fx.callee(t) == "de_snipped::crop_window_text"]
+            if not crops:
+                continue
+            ctx.saw(wf)
+            fam = [g for g in fx.family(wf)]
+            for g in fam:
+                for b, t in g.calls():
+                    if last_seg(fx.callee_decl(t) or fx.callee(t)) == "count" and t["args"]:
+                        with g.deep():
+                            a = g.sym_operand(t["args"][0])
+                        if not sym_contains(a, lambda x: x[0] == "call" and last_seg(x[1]) == "chars"):
+                            continue
+                        nw += 1
+                        if g is wf:
+                            okw = sym_contains(a, lambda x: x[0] == "call" and x[1] == "de_snipped::crop_window_text")
+                        else:
+                            # counted inside a closure: what it measures is what it captured — every captured text / offset must
+                            # come out of the crop
+                            okw = False
+                            for cb, ci, cs_ in wf.stmts():
+                                if cs_["k"] == "assign" and cs_["rv"]["k"] == "aggr" and cs_["rv"].get("ak") == "closure" and norm(cs_["rv"].get("closure", "")) == g.npath:
+                                    with wf.deep():
+                                        caps = [wf.sym_operand(o) for o in cs_["rv"]["ops"]]
+                                    texts = [c for c in caps if sym_contains(c, lambda x: x[0] == "call" and x[1] == "de_snipped::crop_window_text")]
+                                    okw = bool(texts) and any(wf.dominates(cr, cb) for cr in crops)
+                        ctx.check(okw, "COLUMN", "C17:COLUMN:caret-measured-on-displayed-text:%s" % wf.name, "the caret's indentation is counted on the text returned by crop_window_text",
+                                  "%s counts the caret's indentation on text that did not come out of crop_window_text (in %s): when the line is cropped on the left the caret is indented by the full column and lands far right of the value" % (wf.name, g.npath),
+                                  config, ctx.where(g, b))
+        ctx.floor("COLUMN.caret-widths", nw, 2, config)
+        # ---- COLUMN (secondary window): every line the window writes — numbered source lines, separators and the caret line —
+        # is formatted with the same gutter width; a line with a fixed-width gutter shifts the caret once line numbers need more
+        # digits (from line 10 on)
+        gw = fx.fn("de_snipped::fmt_snippet_window_with_mapping_or_fallback")
+        ctx.saw(gw)
+        tuples = []
+        for b, i, s_ in gw.stmts():
+            if s_["k"] == "assign" and s_["rv"]["k"] == "aggr" and s_["rv"].get("ak") == "tuple" and s_["rv"]["ops"] and gw.local_name(s_["p"]["l"]) == "args":
+                tuples.append((b, [render(gw.sym_operand(o)) for o in s_["rv"]["ops"]]))
+        consts = [b for b, t in gw.calls() if last_seg(fx.callee(t)) in ("write_str", "from_str") and len(t["args"]) > 1 and gw.sym_operand(t["args"][-1])[0] == "const"]
+        bad = [(b, ops) for b, ops in tuples if "gutter_width" not in ops]
+        ctx.check(not bad and not consts, "COLUMN", "C17:COLUMN:secondary-window-gutter", "every formatted line of the secondary window takes the gutter width (%d lines)" % len(tuples),
+                  "the secondary window writes a line with a fixed gutter (%s): from line 10 on the caret sits left of the reported column" % ([ops for b, ops in bad] or "constant line"), config, ctx.where(gw, (bad[0][0] if bad else consts[0]) if (bad or consts) else None))
+        ctx.floor("COLUMN.secondary-window-lines", len(tuples), 6, config)
         # ---- miette adapter
         if any(f.file.endswith("miette.rs") for f in fx.fns.values()):
             rule_miette(ctx, fx, config)
